@@ -213,7 +213,9 @@ Definition repaired : fixes := mkfixes true true true.
    oc_bg   : len(bsBG) < len(bsNone)
    oc_key  : len(bsKey) < len(bestBS)   (consulted only above 90 % area)
    oc_alt_a/b/c : in mixed mode, the alternate codec was smaller, for the
-     first / dispose-background / key-frame encodeFrame call of the step. *)
+     first / dispose-background / key-frame encodeFrame call of the step (oc_alt_c: in the
+     encode that produced the key frame stored after the 90 % fallback; it repeats the
+     candidate's encode unless an alternate-codec call fails in between). *)
 Record orc := mkorc { oc_bg : bool; oc_key : bool; oc_alt_a : bool; oc_alt_b : bool; oc_alt_c : bool }.
 
 Definition clamp_loop (v : Z) : Z :=
